@@ -123,6 +123,20 @@ func (timeoutError) Is(target error) bool {
 
 var _ net.Error = timeoutError{}
 
+// fatalError ends a runaway: neither a timeout nor temporary.
+type fatalError struct{ n int }
+
+func (e fatalError) Error() string {
+	return fmt.Sprintf("scripted conn: broken after %d I/O calls on an expired or closed conn", e.n)
+}
+
+// runawayLimit bounds the I/O calls of one Dial that fail because the
+// deadline has already passed or the conn is closed. A Dial that keeps
+// retrying never blocks, so virtual time could never advance; beyond the limit
+// the conn records the runaway and fails every call fatally, and if even that
+// does not stop the caller it panics (reported as a violation).
+const runawayLimit = 1000
+
 type fakeAddr string
 
 func (a fakeAddr) Network() string { return "scripted" }
@@ -162,9 +176,15 @@ func (e event) String() string {
 }
 
 func renderLog(log []event) []string {
-	out := make([]string, len(log))
+	out := make([]string, 0, len(log))
 	for i, e := range log {
-		out[i] = e.String()
+		if len(log) > 60 && i >= 40 && i < len(log)-15 {
+			if i == 40 {
+				out = append(out, fmt.Sprintf("... %d more calls ...", len(log)-55))
+			}
+			continue
+		}
+		out = append(out, e.String())
 	}
 	return out
 }
@@ -196,6 +216,26 @@ type fakeConn struct {
 	reqDone  bool
 	chunks   [][]byte
 	timers   []*time.Timer
+	deadIO   int // I/O calls that failed on an expired deadline or a closed conn
+	runaway  int // deadIO when the runaway was recorded, 0 = none
+}
+
+// deadLocked accounts one I/O call on an expired or closed conn and returns
+// the error to report. c.mu is held.
+func (c *fakeConn) deadLocked(err error) error {
+	c.deadIO++
+	switch {
+	case c.deadIO > 3*runawayLimit:
+		panic(fmt.Sprintf("Dial keeps retrying I/O on a conn that reports a fatal error (%d calls)", c.deadIO))
+	case c.deadIO > runawayLimit:
+		if c.runaway == 0 {
+			c.runaway = c.deadIO
+			i := c.appendLocked("mark:runaway", -1, fmt.Sprintf("%d calls", c.deadIO))
+			c.log[i].Done = true
+		}
+		return fatalError{c.deadIO}
+	}
+	return err
 }
 
 func newFakeConn(t0 time.Time, s *peerScript) *fakeConn {
@@ -293,11 +333,13 @@ func (c *fakeConn) read(p []byte) (int, error) {
 		c.mu.Lock()
 		switch {
 		case c.closed || c.down:
+			err := c.deadLocked(net.ErrClosed)
 			c.mu.Unlock()
-			return 0, net.ErrClosed
+			return 0, err
 		case expired(c.rd):
+			err := c.deadLocked(timeoutError{})
 			c.mu.Unlock()
-			return 0, timeoutError{}
+			return 0, err
 		case len(p) == 0:
 			c.mu.Unlock()
 			return 0, nil
@@ -334,11 +376,13 @@ func (c *fakeConn) write(p []byte) (int, error) {
 		c.mu.Lock()
 		switch {
 		case c.closed || c.down:
+			err := c.deadLocked(net.ErrClosed)
 			c.mu.Unlock()
-			return 0, net.ErrClosed
+			return 0, err
 		case expired(c.wd):
+			err := c.deadLocked(timeoutError{})
 			c.mu.Unlock()
-			return 0, timeoutError{}
+			return 0, err
 		case c.eof:
 			c.mu.Unlock()
 			return 0, io.ErrClosedPipe
@@ -486,16 +530,17 @@ func (c *fakeConn) shutdown() {
 
 // state is a snapshot used by the oracle.
 type connState struct {
-	LogLen int
-	Closed bool
-	RD, WD time.Time
-	IOs    int
+	LogLen  int
+	Closed  bool
+	RD, WD  time.Time
+	IOs     int
+	Runaway int
 }
 
 func (c *fakeConn) state() connState {
 	c.mu.Lock()
 	defer c.mu.Unlock()
-	return connState{len(c.log), c.closed, c.rd, c.wd, c.nio}
+	return connState{len(c.log), c.closed, c.rd, c.wd, c.nio, c.runaway}
 }
 
 func (c *fakeConn) copyLog() []event {
